@@ -465,7 +465,10 @@ class Flow:
             nxt = set()
             for st in cur:
                 for e in self.c.call_raises(call, st):
-                    out.exc.add((st, e, call))
+                    if isinstance(e, tuple):      # (exception name, state on the exception edge)
+                        out.exc.add((e[1], e[0], call))
+                    else:
+                        out.exc.add((st, e, call))
                 for s2 in self.c.call_effect(call, st):
                     nxt.add(s2)
             cur = nxt
